@@ -179,7 +179,8 @@ def r2_r3_r4(ctx):
                 continue
             try:
                 got = Builder(sp).nf(erase_mod(t_), {src: x})
-                ok = True if got == x else False
+                d = got - x
+                ok = True if d.is_const() and d.constval() % 360 == 0 else False
             except Undecided:
                 ok = None
             ctx.check("R4", "%s|congruent-mod-360|%s|%s" % (qn, nm, tag), ok, "the transform of %s is the identity modulo 360" % nm, bad="the transform of %s is not congruent to its input modulo 360" % nm, fn=qn)
